@@ -107,7 +107,7 @@ ARGS = {
     'Icinga#get_host': ['"sbh"'], 'Icinga#get_service': ['"sbh", "sbs"'], 'Icinga#get_services': ['"sbh"'], 'Icinga#get_user': ['"x"'],
     'Icinga#get_check_command': ['"sbcmd"'], 'Internal#run_with_activation_context': ['function() { }'],
     'Array#set': ['0, 9'], 'Array#get': ['0'], 'Array#add': ['9'], 'Array#remove': ['0'], 'Array#contains': ['1'], 'Array#join': ['","'],
-    'Array#sort': ['', '(a, b) => a < b', 'match'], 'Array#map': ['x => x', 'string'], 'Array#reduce': ['(a, b) => a + b', 'union'],
+    'Array#sort': ['', '(a, b) => a < b', 'match'], 'Array#map': ['x => x', 'string'], 'Array#reduce': ['(a, b) => a + b', 'Math.max'],
     'Array#filter': ['x => true', 'bool'], 'Array#any': ['x => true', 'bool'], 'Array#all': ['x => true', 'bool'],
     'Dictionary#set': ['"k", 1'], 'Dictionary#get': ['"a"'], 'Dictionary#remove': ['"a"'], 'Dictionary#contains': ['"a"'],
     'Namespace#set': ['"k", 1'], 'Namespace#get': ['"x"'], 'Namespace#remove': ['"x"'], 'Namespace#contains': ['"x"'],
@@ -118,14 +118,14 @@ ARGS = {
     'Type#register_attribute_handler': ['"vars", function() { }'], 'DateTime#format': ['"%Y"'],
 }
 CALLBACKS = {'x => x', '(a, b) => a < b', '(a, b) => a + b', 'x => true'}
-NATIVE_CB = {'string': 'System#string', 'bool': 'System#bool', 'union': 'System#union', 'match': 'System#match'}
+NATIVE_CB = {'string': 'System#string', 'bool': 'System#bool', 'Math.max': 'Math#max', 'match': 'System#match'}
 MATH1 = ['abs', 'acos', 'asin', 'atan', 'ceil', 'cos', 'exp', 'floor', 'log', 'round', 'sin', 'sqrt', 'tan', 'isnan', 'isinf', 'sign']
 
 # receivers of prototype methods: type -> [(recv kind for the model, model type, expression)]
 RECV = {
     'Array': [('lit', 'Array', '[ 3, 1, 2 ]'), ('shared', 'Array', 'SbArr'), ('shared', 'Array', HOST + '.vars.arr')],
     'Dictionary': [('lit', 'Dictionary', '{}'), ('shared', 'Dictionary', 'SbDict'), ('shared', 'Dictionary', HOST + '.vars')],
-    'Namespace': [('shared', 'Namespace', 'SbNs'), ('shared', 'Namespace', 'System')],
+    'Namespace': [('shared', 'Namespace', 'SbNs'), ('shared', 'Namespace', 'Icinga')],
     'String': [('lit', 'String', '"a,b c"')], 'Number': [('lit', 'Number', '(42)')], 'Boolean': [('lit', 'Boolean', 'true')],
     'Object': [('shared', 'Host', HOST), ('shared', 'Array', 'SbArr')],
     'ConfigObject': [('shared', 'Host', HOST), ('shared', 'ApiUser', 'get_object(ApiUser, "sbu")')],
@@ -197,7 +197,9 @@ def call_probes(fn, rnd, tier):
                 cb = 'cb=native cbn=%s' % hx(NATIVE_CB[al])
             else:
                 cb = 'cb=none nargs=%d' % (len(al.split(',')) if al else 0)
-            modes = ['console', 'filter', 'event'] if tier != 'quick' or rnd.random() < 0.5 else [rnd.choice(['console', 'filter', 'event'])]
+            # always one mode in which the outcome is observable (console / filter); event filters swallow errors
+            modes = ['console', 'filter', 'event'] if tier != 'quick' or rnd.random() < 0.4 else \
+                [rnd.choice(['console', 'filter'])] + (['event'] if rnd.random() < 0.3 else [])
             if 'inbox' not in modes and rnd.random() < 0.15:
                 modes.append('inbox')
             for mode in modes:
@@ -358,6 +360,9 @@ def extra_stats(cases, impl):
                 st['live_functions'] += 1
                 if ' safe=1' in l:
                     st['live_functions_safe'] += 1
+    safe_fns = {c['tags']['fn'] for c in cases if c['tags'].get('family') == 'function-call' and c['tags'].get('safe')}
+    st['safe_functions'] = len(safe_fns)
+    st['safe_functions_without_successful_execution'] = sorted(safe_fns - fns_ok)
     st['functions_probed'] = len(fns_called)
     st['functions_with_a_successful_execution'] = len(fns_ok)
     st['prototype_methods_without_receiver_table_entry'] = len(cases[0]['tags'].get('skipped_prototypes', [])) if cases else 0
